@@ -172,7 +172,7 @@ func init() {
 	core.Register(&core.Prop{
 		ID:    "C11",
 		Title: "JSON serialization round-trips every container state",
-		Cases: func(tier string) int { return tierN(tier, 42000, 840000) },
+		Cases: func(tier string) int { return tierN(tier, 42000, 2520000) },
 		Run:   runC11,
 		Rule: "one container per case, cycling through all 21 kinds (int/string elements, four key/value type pairs incl. values whose text equals keys, all comparators, ring capacities 1..64, B-tree orders) in a state that is never-used, used-then-cleared or reached by a random history (wrapped, partially filled and full rings); " +
 			"ToJSON must succeed, be valid JSON of the right shape and equal json.Marshal (byte for byte; up to element order for hash containers) without altering the container; its output is loaded by FromJSON, json.Unmarshal and UnmarshalJSON into three fresh containers of the same configuration, " +
